@@ -60,7 +60,7 @@ var props = map[string]prop{
 	"C20": {"exploration", c20.Run},
 }
 
-var raceWorkers = map[string]func(*evid.Ctx){"C10": c10.RaceWorker, "C18": c18.RaceWorker}
+var raceWorkers = map[string]func(*evid.Ctx){"C10": c10.RaceWorker, "C18": c18.RaceWorker, "C06": c06.RaceWorker, "C16": c16.RaceWorker, "C17": c17.RaceWorker}
 
 func main() {
 	if len(os.Args) < 3 {
@@ -91,7 +91,7 @@ func main() {
 			if !strings.Contains(ln, ".go:") || strings.Contains(ln, "/src/runtime/") {
 				continue
 			}
-			if strings.Contains(ln, "/repo/") {
+			if strings.Contains(ln, "/repo/") || (os.Getenv("VERIF_REPO") != "" && strings.Contains(ln, os.Getenv("VERIF_REPO")+"/")) {
 				site = strings.SplitN(ln, " +0x", 2)[0]
 			}
 			break
